@@ -42,34 +42,41 @@ class CHECK(core.Check):
     N_QUICK = 250
     N_THOROUGH = 6000
     N_SEARCH = 400
-    RULE = ("FloScript programs: 1-4 worker framers (active/inactive, front/mid/back, periods 0..3P) with 1-3 flat frames, 0-2 slave "
-            "framers, a supervisor that stops everything after a while; frames carry entry guards (flag needs, fiats in benter), "
+    RULE = ("FloScript programs: 1-4 worker framers (active/inactive, front/mid/back, periods 0..3P) with 1-4 frames in a forest (`frame x in y`: nested outlines, a recorder deed first in every enter and exit context), 0-3 slave "
+            "framers whose frames may fiat slaves declared after them (nested fiats, any depth), a supervisor that stops everything after a while; frames carry entry guards (flag needs, fiats in benter), "
             "bids of all five kinds to me/named/all with and without `at period`, fiats of all five kinds in benter/enter/recur/exit, "
             "flag puts, transitions on recurred/flag. Bounded-exhaustive: the 6 x 5 x 2 control x status x checkStart table on a real "
             "framer. non-trivial = at least one bid delivered or one fiat executed and at least 3 passes; distinct by case content")
     TRUSTED = ["correspondence: real Builder (FloScript text), Skedder.run, Framer.makeRunner, frames, Want*/Fiat* actors run in-process; "
                "observation by harness/props/bids_doubles.py: proxy around framer.runner, a `desire` property on a per-run Framer "
                "subclass, wrappers around Want*/Fiat*.action and framer.checkStart, caller-frame phase probe",
-               "frames are flat (no over/under, no auxiliaries, no clones) and slaves do not fiat in the generated programs and in the model; "
+               "frames form outlines (over/under) without auxiliaries or clones; slaves fiat their own slaves to any depth (a slave fiats only "
+               "slaves declared after it, so no generator is resumed while it is executing); "
                "the frame engine proper belongs to the E-flo engine",
                "exact time only (dyadic periods); the model of Skedder.run is the one of C02 (as repaired by fix patch D02a)"]
-    PARTIAL = ["frames with over/under, auxiliaries, conditional auxiliaries, clones, `done`, elapsed needs: not in this model",
-               "fiats issued from inside a slave framer (nested fiats) are outside the model (driver answers `unsupported`)",
+    PARTIAL = ["auxiliaries, conditional auxiliaries, clones, `done`, elapsed needs: not in this model (E-flo engine)",
+               "a fiat on a framer whose generator is executing (a cycle of masters and slaves; ValueError in Python) is outside the "
+               "model (driver answers `unsupported`)",
                "non-framer taskers (Tasker, Server, Logger tables) are covered only as far as C02 models the base Tasker"]
     TECHNIQUE = ("Lean 4 theorems (finite table by decide; frame conditions of every hook by induction over action lists; trace invariants "
                  "lifted through the scheduler model by a generic step-invariant theorem) + differential correspondence on generated FloScript")
     LEVEL_TEXT = ("Full proof on the model: C04_runner_table (status after any run = documented 6x5x2 table, for every program), "
-                  "C04_runner_table_total, C04_fiat_reports_truth, C04_failed_start_leaves_stopped, C04_control_is_last_bid (every main-loop "
+                  "C04_runner_table_total, C04_fiat_reports_truth and C04_fiat_tree_sound (at every depth of the master/slave tree, by induction "
+                  "over the depth: truthful fiat entries, statuses change only through logged fiats, desire = last write), "
+                  "C04_stop_abort_exit_outline, C04_start_enters_outline, C04_exit_order (a start / stop / abort by bid or fiat enters resp. "
+                  "exits the whole outline of nested frames, bottom-up on the way out), C04_failed_start_leaves_stopped, C04_control_is_last_bid (every main-loop "
                   "send carries the last value written to the target's desire; abort sweep sends ABORT), C04_slaves_only_by_fiat "
                   "(scheduler never sends to a slave; a slave's status changes only inside a fiat on it), C04_bid_writes.")
     LEVEL_NOTE = ("Trusted: Lean kernel; axioms propext, Classical.choice, Quot.sound; hand transcription of framing.Framer.makeRunner, "
-                  "wanting.py, fiating.py validated by the correspondence runs; flat-frame subset of the frame engine; observation doubles.")
+                  "wanting.py, fiating.py validated by the correspondence runs; frame outlines without auxiliaries/clones; observation doubles.")
 
     # ------------------------------------------------------------------ generation
     def gen_acts(self, rng, me, workers, slaves, ctx, in_slave):
         acts = []
         for _ in range(rng.choice([0, 0, 1, 1, 2])):
             r = rng.random()
+            if in_slave and [x for x in slaves if x > me] and r < 0.35:
+                r = 0.7           # a slave with slaves of its own fiats them more often
             if r < 0.55:
                 ctl = rng.choice([0, 1, 2, 3, 4, 1, 2, 0])
                 if ctx == "ex" and ctl in (1, 2, 4):
@@ -90,21 +97,24 @@ class CHECK(core.Check):
                 elif ctl in (0, 3) and rng.random() < 0.1:
                     p = str(Fraction(rng.choice([1, 2]), 8))
                 acts.append(["b", ctl, p, tg])
-            elif r < 0.8 and slaves and not in_slave:
-                acts.append(["f", rng.choice([0, 1, 2, 3, 4, 1, 2, 4]), rng.choice(slaves)])
+            elif r < 0.8 and [x for x in slaves if not in_slave or x > me]:
+                # a slave fiats only slaves declared after it: the master/slave relation stays a DAG
+                acts.append(["f", rng.choice([0, 1, 2, 3, 4, 1, 2, 4]), rng.choice([x for x in slaves if not in_slave or x > me])])
             else:
                 acts.append(["p", rng.randrange(3), rng.choice([0, 1])])
         return acts
 
     def gen_frames(self, rng, me, workers, slaves, in_slave):
-        nf = rng.choice([1, 2, 2, 3])
+        nf = rng.choice([1, 2, 2, 3, 3, 4])
         frames = []
         for j in range(nf):
-            fr = {"be": [], "en": [], "re": [], "ex": [], "pre": []}
+            fr = {"over": None if j == 0 or rng.random() < 0.45 else rng.randrange(j),
+                  "be": [], "en": [], "re": [], "ex": [], "pre": []}
             if rng.random() < 0.25:
                 fr["be"].append(["c", ["F", rng.randrange(3), rng.choice([0, 1])]])
-            if slaves and not in_slave and rng.random() < 0.15:
-                fr["be"].append(["f", rng.choice([4, 4, 1, 0]), rng.choice(slaves)])
+            below = [x for x in slaves if not in_slave or x > me]
+            if below and rng.random() < 0.15:
+                fr["be"].append(["f", rng.choice([4, 4, 1, 0]), rng.choice(below)])
             for key in ("en", "re", "ex"):
                 fr[key] = self.gen_acts(rng, me, workers, slaves, key, in_slave)
             if nf > 1:
@@ -117,7 +127,7 @@ class CHECK(core.Check):
 
     def gen_case(self, rng):
         nw = rng.choice([1, 2, 2, 3, 3, 4])
-        ns = rng.choice([0, 1, 1, 2])
+        ns = rng.choice([0, 1, 1, 2, 2, 3])
         kinds = ["w"] * nw + ["s"] * ns
         rng.shuffle(kinds)
         kinds.append("sup")
@@ -228,6 +238,7 @@ class CHECK(core.Check):
         last_write = {}
         status = {i: 0 for i in range(n)}
         prev_write = None
+        entered = {i: [] for i in range(n)}
         cur = None            # scheduler send in progress: [id, control, status before, check result]
         pending_check = {}    # framer -> last checkStart result not yet consumed by a send's end
         for l in out:
@@ -235,7 +246,16 @@ class CHECK(core.Check):
                 continue
             t = l.split()[1:]
             kind = t[0]
-            if kind == "w":
+            if kind == "m":
+                # frames are entered top-down and exited innermost first
+                i, f = int(t[1]), int(t[2])
+                if t[3] == "e":
+                    entered[i].append(f)
+                else:
+                    if not entered[i] or entered[i][-1] != f:
+                        return "framer %d exits frame %d but its innermost entered frame is %s" % (i, f, entered[i][-1:] or None)
+                    entered[i].pop()
+            elif kind == "w":
                 last_write[int(t[1])] = int(t[2])
                 prev_write = (int(t[1]), int(t[2]))
             elif kind == "b":
@@ -266,6 +286,8 @@ class CHECK(core.Check):
                 if why:
                     return why
                 status[i] = st
+                if st in (0, 3) and entered[i]:
+                    return "framer %d yielded status %d with frames %s still entered" % (i, st, entered[i])
                 cur = None
             elif kind == "f":
                 by, sl, c, st, ret = int(t[1]), int(t[2]), int(t[3]), int(t[4]), int(t[5])
@@ -277,6 +299,8 @@ class CHECK(core.Check):
                 if why:
                     return why
                 status[sl] = st
+                if st in (0, 3) and entered[sl]:
+                    return "slave %d is left in status %d by a fiat with frames %s still entered" % (sl, st, entered[sl])
         if out[0] == "fuel":
             return None       # cut by the pass budget: nothing more to say (the model must say `fuel` too)
         # final statuses: nothing changed a status outside a send / a fiat
@@ -316,7 +340,9 @@ class CHECK(core.Check):
             return "table"
         tags = []
         if any(l.startswith("T f ") for l in out):
-            tags.append("fiat")
+            slaves = set(i for i, f in enumerate(case["framers"]) if f["sched"] == "slave")
+            nested = any(l.startswith("T f ") and int(l.split()[2]) in slaves for l in out)
+            tags.append("nestedfiat" if nested else "fiat")
         if any(l.startswith("T k ") and l.endswith(" 0") for l in out):
             tags.append("failedstart")
         if any(l.startswith("T b ") and not l.endswith(" -") for l in out):
